@@ -19,20 +19,25 @@
 
    WakeCheck = FALSE is the deliberately wrong variant (`if` instead of `while` around resp.wait()): a notified thread
    takes cache[name] without looking - KeyError when the answer was for another name.                              *)
-EXTENDS Integers, Sequences, FiniteSets, TLC
+EXTENDS Integers, Sequences, SequencesExt, FiniteSets, TLC
 
 CONSTANTS Threads,      \* application threads
           Names,        \* service names that are resolved
           PeerSnl,      \* [Names -> address the peer bound the name to, 0 = not bound]
+          NameLen,      \* [Names -> length of the name in octets]
+          SendMiu,      \* link MIU announced by the peer: budget of one SNL PDU's information field
+          PopHead,      \* (wrong variant) dequeue walks a snapshot of the queue but sends whatever is at its head (code: FALSE)
           MaxCalls,     \* bound on resolve() calls per thread (model checking only)
           WakeCheck     \* TRUE: `while name not in snl: wait()`   FALSE: `if ...: wait()`
 
 VARIABLES th,           \* [Threads -> [pc, n, ret, calls]]   pc: "idle" | "wait" | "woken" | "ret"
           reqs,         \* SDREQ queued, not yet collected: Seq of [id, n]
-          sent,         \* requests on their way / at the peer, not yet answered: set of [id, n]
+          sent,         \* ServiceDiscovery.sent: the requests recorded as sent (tid -> name), set of [id, n]
+          out,          \* SDREQ that really went on the wire and are not yet answered: set of [id, n]
+          snl,          \* the names of the last SNL PDU collected (for its length)
           cache,        \* [Names -> address | -1]  (ServiceDiscovery.snl, -1 = unknown)
           up            \* link is up
-vars == <<th, reqs, sent, cache, up>>
+vars == <<th, reqs, sent, out, snl, cache, up>>
 
 Unknown == -1
 RNone == -2             \* resolve() returned None
@@ -47,12 +52,30 @@ CallR(s, t, n) ==
          THEN [s EXCEPT !.th[t] = [@ EXCEPT !.pc = "ret", !.n = n, !.ret = s.cache[n], !.calls = @ + 1]]
          ELSE [s EXCEPT !.th[t] = [@ EXCEPT !.pc = "wait", !.n = n, !.calls = @ + 1],
                         !.reqs = Append(@, [id |-> <<t, s.th[t].calls + 1>>, n |-> n])]    \* id: ghost for the transaction id
-\* ServiceDiscovery.dequeue: every queued request goes into the SNL PDU (names are short against the MIU)
-CollectR(s) == [s EXCEPT !.reqs = <<>>, !.sent = @ \cup {s.reqs[i] : i \in DOMAIN s.reqs}]
+\* ServiceDiscovery.dequeue, requests: `for i in range(len(sdreq))`: the head goes into the PDU if 3 + len(name) fits
+\* the remaining budget (and is recorded in `sent`), else it is rotated to the end - the queue keeps its order
+\* (llc.py:238-246).  wrong variant: the walk is over a snapshot, the entry that fits is recorded, the HEAD is sent
+Need(n) == 3 + NameLen[n]
+CollectR(s) ==
+    LET r == FoldLeft(LAMBDA acc, i :
+                        LET e == s.reqs[i] IN
+                        IF Need(e.n) > acc.m THEN (IF PopHead THEN acc ELSE [acc EXCEPT !.keep = Append(@, e)])
+                        ELSE IF PopHead
+                             THEN [m |-> acc.m - Need(e.n), keep |-> <<>>, q |-> Tail(acc.q), wire |-> Append(acc.wire, Head(acc.q)),
+                                   rec |-> acc.rec \cup {e}]
+                             ELSE [acc EXCEPT !.m = @ - Need(e.n), !.wire = Append(@, e), !.rec = @ \cup {e}],
+                      [m |-> SendMiu, keep |-> <<>>, q |-> s.reqs, wire |-> <<>>, rec |-> {}], [i \in DOMAIN s.reqs |-> i])
+    IN [s EXCEPT !.reqs = IF PopHead THEN r.q ELSE r.keep,
+                 !.sent = @ \cup r.rec,
+                 !.out = @ \cup {r.wire[i] : i \in DOMAIN r.wire},
+                 !.snl = [i \in DOMAIN r.wire |-> r.wire[i].n]]
 \* ServiceDiscovery.enqueue with the answers for the requests A                        llc.py:199-210
+\* the peer answers the request it received (its id, the address bound under ITS name); the answer is filed under
+\* the name recorded for that id - an id that was never recorded is ignored
 DeliverR(s, A) ==
-    [s EXCEPT !.sent = @ \ A,
-              !.cache = [n \in Names |-> IF \E a \in A : a.n = n THEN PeerSnl[n] ELSE @[n]],
+    [s EXCEPT !.out = @ \ A,
+              !.cache = [n \in Names |-> IF \E a \in A : \E r \in s.sent : r.id = a.id /\ r.n = n
+                                         THEN PeerSnl[(CHOOSE a \in A : \E r \in s.sent : r.id = a.id /\ r.n = n).n] ELSE @[n]],
               !.th = [t \in Threads |-> IF @[t].pc = "wait" THEN [@[t] EXCEPT !.pc = "woken"] ELSE @[t]]]
 \* after resp.wait() returned                                                         llc.py:187-189
 WakeR(s, t, check) ==
@@ -65,16 +88,16 @@ LinkEndR(s) == [s EXCEPT !.up = FALSE,
                          !.th = [t \in Threads |-> IF @[t].pc = "wait" THEN [@[t] EXCEPT !.pc = "woken"] ELSE @[t]]]
 ReturnR(s, t) == [s EXCEPT !.th[t].pc = "idle"]
 
-State == [th |-> th, reqs |-> reqs, sent |-> sent, cache |-> cache, up |-> up]
-Set(s) == /\ th' = s.th /\ reqs' = s.reqs /\ sent' = s.sent /\ cache' = s.cache /\ up' = s.up
+State == [th |-> th, reqs |-> reqs, sent |-> sent, out |-> out, snl |-> snl, cache |-> cache, up |-> up]
+Set(s) == /\ th' = s.th /\ reqs' = s.reqs /\ sent' = s.sent /\ out' = s.out /\ snl' = s.snl /\ cache' = s.cache /\ up' = s.up
 
 \* ------------------------------------------------------------------ actions
-Init == /\ th = [t \in Threads |-> Idle] /\ reqs = <<>> /\ sent = {}
+Init == /\ th = [t \in Threads |-> Idle] /\ reqs = <<>> /\ sent = {} /\ out = {} /\ snl = <<>>
         /\ cache = [n \in Names |-> Unknown] /\ up = TRUE
 
 Call(t, n) == th[t].pc = "idle" /\ th[t].calls < MaxCalls /\ Set(CallR(State, t, n))
-Collect == reqs # <<>> /\ up /\ Set(CollectR(State))
-Deliver(A) == A # {} /\ A \subseteq sent /\ up /\ Set(DeliverR(State, A))
+Collect == reqs # <<>> /\ up /\ CollectR(State).snl # <<>> /\ Set(CollectR(State))
+Deliver(A) == A # {} /\ A \subseteq out /\ up /\ Set(DeliverR(State, A))
 Wake(t) == th[t].pc = "woken" /\ Set(WakeR(State, t, WakeCheck))
 LinkEnd == up /\ Set(LinkEndR(State))
 Return(t) == th[t].pc = "ret" /\ Set(ReturnR(State, t))
@@ -83,7 +106,7 @@ Next == \/ \E t \in Threads : \/ \E n \in Names : Call(t, n)
                               \/ Wake(t)
                               \/ Return(t)
         \/ Collect
-        \/ \E A \in SUBSET sent : Deliver(A)
+        \/ \E A \in SUBSET out : Deliver(A)
         \/ LinkEnd
 Spec == Init /\ [][Next]_vars
 
@@ -95,13 +118,19 @@ ResolveReturns == \A t \in Threads : ReturnOkP(th[t], up)
 NoLostWakeupP(s) == \A t \in Threads : s.th[t].pc = "wait" => (s.up /\ s.cache[s.th[t].n] = Unknown)
 NoLostWakeup == NoLostWakeupP(State)
 \* every waiting thread has a request that is queued or on its way
-Pending(s) == {s.reqs[i].n : i \in DOMAIN s.reqs} \cup {a.n : a \in s.sent}
+Pending(s) == {s.reqs[i].n : i \in DOMAIN s.reqs} \cup {a.n : a \in s.out}
 RequestOutP(s) == \A t \in Threads : s.th[t].pc = "wait" => s.th[t].n \in Pending(s)
 RequestOut == RequestOutP(State)
+\* every SDREQ on the wire is recorded under its transaction id, and an SNL PDU never exceeds the peer's MIU
+RecordedP(s) == s.out \subseteq s.sent
+Recorded == RecordedP(State)
+SnlFitsP(s) == FoldLeft(LAMBDA a, i : a + Need(s.snl[i]), 0, [i \in DOMAIN s.snl |-> i]) <= SendMiu
+SnlFits == SnlFitsP(State)
 
 \* ------------------------------------------------------------------ reachability witnesses (must be violated)
 W_ForeignWake == ~(\E t \in Threads : th[t].pc = "woken" /\ up /\ cache[th[t].n] = Unknown)     \* woken by somebody else's answer
-W_TwoWaiting  == ~(Cardinality({t \in Threads : th[t].pc = "wait"}) >= 2 /\ Cardinality(sent) >= 2)
+W_TwoWaiting  == ~(Cardinality({t \in Threads : th[t].pc = "wait"}) >= 2 /\ Cardinality(out) >= 2)
+W_Skipped     == ~(Len(snl) >= 2 /\ Len(reqs) >= 1)        \* one request did not fit, a later one did
 W_SameName    == ~(\E t, u \in Threads : t # u /\ th[t].pc = "wait" /\ th[u].pc = "wait" /\ th[t].n = th[u].n)
 W_NoneReturn  == ~(\E t \in Threads : th[t].pc = "ret" /\ th[t].ret = RNone)
 W_Absent      == ~(\E t \in Threads : th[t].pc = "ret" /\ th[t].ret = 0)
